@@ -96,6 +96,21 @@ def run(ctx, factor):
         else:
             tag = "random-realised"
         one(ctx, doc, insts, tag)
+        # systematic near misses for the full-match flags: one mnemonic / one operand of the realised window made longer
+        # (contained-in still holds, equal does not), for items with and without operands
+        cfg = doc.get("config") or {}
+        base = gen_rules.realise(g, doc)
+        if base and (cfg.get("mnemonics-full-match") or cfg.get("operands-full-match")) and g.chance(0.6):
+            j = g.r.randrange(len(base))
+            a, m, ops = base[j]
+            if cfg.get("mnemonics-full-match") and (not ops or g.chance(0.5) or not cfg.get("operands-full-match")):
+                base[j] = (a, m + g.pick(["l", "q", "x"]) if g.chance(0.7) else "c" + m, ops)
+            elif ops:
+                k = g.r.randrange(len(ops))
+                ops = list(ops)
+                ops[k] = ops[k] + g.pick(["d", "0", "x"]) if not ops[k].endswith(")") else "%" + ops[k]
+                base[j] = (a, m, ops)
+            one(ctx, doc, base, "full-match-near-miss")
         if rep.violations and factor > 1:
             return
 
